@@ -302,8 +302,41 @@ def run_C13(em, impl, tabs, rng, thorough):
     blds = corpus(tabs, rng, 2 if thorough else 1, maxcount=3)
     pays = [b.payload for b in blds]
     bad = [p[: rng.randrange(2, max(3, len(p)))] for p in rng.sample(pays, min(40, len(pays)))] + [b"", b"\x00", b"\xfe\xc0"]
+    # the same satellite / signal masks under different constellations (history-sensitive caches would key on them)
+    for mask64, mask32 in ((0xA000000000000000, 0x40010000), (0x0000000000003000, 0x60000000), (0x8000000000000001, 0x00000400)):
+        for ident in rng.sample(list(tabs.M), 14 if thorough else 8):
+            b = gen.build(tabs, ident, rng, maskmode="last")
+            if b is None:
+                continue
+            v = int.from_bytes(b.payload, "big")
+            nb = len(b.payload) * 8
+            for key, width, mk in (("DF394", 64, mask64), ("DF395", 32, mask32)):
+                off = [f for f in b.fields if f[1] == key][0][4]
+                v = (v & ~(((1 << width) - 1) << (nb - off - width))) | (mk << (nb - off - width))
+            pays.append(v.to_bytes(len(b.payload), "big") + bytes(60))
     order = pays + bad
     rng.shuffle(order)
+    # fresh interpreters with different histories: each payload's result must be the same in all of them and here
+    import json as _json
+    import subprocess as _sp
+    import os as _os
+    helper = ("import sys,json;sys.path[:0]=%r;import vlib,gen,drv_msg;impl=drv_msg.Impl();"
+              "ps=[bytes.fromhex(x) for x in json.load(sys.stdin)];"
+              "print(json.dumps([[impl.observe(p,1,0)[0].hex(),[f.hex() for f in impl.observe(p,1,0)[1]]] for p in ps]))") % ([_os.path.dirname(__file__), _os.path.join(_os.path.dirname(_os.path.dirname(__file__)), "tools")],)
+    uniq = sorted(set(order))
+    views = []
+    for perm in (uniq, uniq[::-1], sorted(uniq, key=lambda x: (len(x), x[::-1]))):
+        pr = _sp.run([sys.executable, "-c", helper], input=_json.dumps([x.hex() for x in perm]), capture_output=True, text=True, env=dict(_os.environ), timeout=600)
+        if pr.returncode != 0:
+            em.violation("C13: fresh interpreter failed", {}, pr.stderr[-400:])
+            continue
+        views.append(dict(zip(perm, [tuple(map(str, r)) for r in _json.loads(pr.stdout)])))
+    em.direct_evaluations += len(uniq) * len(views)
+    for pl in uniq:
+        vs = {v[pl] for v in views if pl in v}
+        if len(vs) > 1:
+            em.violation("C13: the same bytes parse differently depending on what was parsed before (fresh interpreters, different orders)",
+                         {"payload": pl.hex()}, {"n_distinct_results": len(vs)})
     ref = {}
     for p in set(order):
         ref[p] = impl.observe(p, 1, FULL)[:3]
